@@ -46,6 +46,15 @@ def warm() -> None:
 
 
 def generate(rng, tier) -> dict:
+    if rng.random() < (0.002 if tier == "quick" else 0.006):
+        # one block of ten million samples x channels and a gulp that is no power of two: block-size dependent paths of the
+        # reductions (tiling, partial tiles) only exist there
+        nch = rng.choice([1024, 1024, 3072])
+        n = rng.randint(9000, 14000) if nch == 1024 else rng.randint(3200, 4500)
+        g = rng.choice([10000, n - 7, n + 3, 9999]) if nch == 1024 else rng.choice([3000, n - 7, n + 3])
+        nm = rng.choice(["bandpass", "bandpass", "collapse", "compute_stats_basic"])
+        return {"files": {"nbits": 8, "nchans": nch, "nsamps": [n], "pad": [0], "vseed": rng.randrange(1 << 16), "mode": "small", "big": True},
+                "name": nm, "params": {}, "start": 0, "nsamps": None, "pre": [], "earlier": None, "ops": [{"gulp": g}, {"gulp": 512}], "faults": [], "huge": True}
     name = rng.choice(NAMES)
     nbits = rng.choice([1, 2, 4, 8, 8, 32, 32])  # the quantifier: depths {1,2,4,8,32} (16-bit blocks are refused by the compiled kernels)
     chans = [c for c in (1, 2, 4, 6, 8, 12, 16) if (c * nbits) % 8 == 0]
